@@ -749,6 +749,16 @@ fn as_char<'de, 's, R: Read<'de> + ?Sized>(read: &R, value: u32) -> Result<char>
     }
 }
 
+/// Like `as_char`, for escapes with an arbitrary number of digits: at the end of
+/// the input, a surrogate value can still be the beginning of a longer, valid
+/// one (`?\xD800` of `?\xD8000`), so more data is needed.
+fn as_char_or_eof<'de, R: Read<'de> + ?Sized>(read: &mut R, value: u32) -> Result<char> {
+    if (0xD800..=0xDFFF).contains(&value) && read.peek()?.is_none() {
+        return error(read, ErrorCode::EofWhileParsingCharacterConstant);
+    }
+    as_char(read, value)
+}
+
 fn needs_escape(c: u8) -> bool {
     c == b'\\' || c == b'"'
 }
@@ -892,6 +902,10 @@ where
                 Ok(ElispEscape::Unibyte)
             }
         }
+        // The escape has an arbitrary number of digits: see `as_char_or_eof`.
+        None if (0xD800..=0xDFFF).contains(&n) && read.peek()?.is_none() => {
+            error(read, ErrorCode::EofWhileParsingString)
+        }
         None => error(read, ErrorCode::InvalidUnicodeCodePoint),
     }
 }
@@ -910,6 +924,10 @@ where
         Some(c) => {
             scratch.extend_from_slice(c.encode_utf8(&mut [0_u8; 4]).as_bytes());
             Ok(ElispEscape::Multibyte)
+        }
+        // `\N{U+D800` may go on as `\N{U+D8000}`: see `as_char_or_eof`.
+        None if (0xD800..=0xDFFF).contains(&n) && read.peek()?.is_none() => {
+            error(read, ErrorCode::EofWhileParsingString)
         }
         None => error(read, ErrorCode::InvalidUnicodeCodePoint),
     }
@@ -1020,6 +1038,13 @@ fn parse_r6rs_char<'de, R: Read<'de> + ?Sized>(
         match decode_r6rs_char_hex_escape(read)? {
             Some(n) => match char::from_u32(n) {
                 Some(c) => Ok(c),
+                // At the end of the input, a surrogate value can still be
+                // the beginning of a longer, valid one (`#\xD800` of
+                // `#\xD8000`): more data is needed, the text is not
+                // malformed.
+                None if (0xD800..=0xDFFF).contains(&n) && read.peek()?.is_none() => {
+                    error(read, ErrorCode::EofWhileParsingCharacterConstant)
+                }
                 None => error(read, ErrorCode::InvalidUnicodeCodePoint),
             },
             None => Ok('x'),
@@ -1202,11 +1227,11 @@ fn decode_elisp_char_escape<'de, R: Read<'de> + ?Sized>(
         }
         b'x' => {
             // Hexadecimal escape, allows arbitrary number of hex digits.
-            decode_elisp_hex_escape(read).and_then(|n| as_char(read, n))
+            decode_elisp_hex_escape(read).and_then(|n| as_char_or_eof(read, n))
         }
         b'0' | b'1' | b'2' | b'3' | b'4' | b'5' | b'6' | b'7' => {
             // Octal escape, allows arbitrary number of octale digits.
-            decode_elisp_octal_escape(read, ch).and_then(|n| as_char(read, n))
+            decode_elisp_octal_escape(read, ch).and_then(|n| as_char_or_eof(read, n))
         }
         next => {
             if next > 0x7F {
